@@ -704,10 +704,13 @@ impl InferContext {
         s.len() == 1 && s.as_bytes()[0].is_ascii_lowercase()
     }
 
-    fn collect_explicit_type_params_in_type(ty: TypeNodeId, out: &mut BTreeMap<Symbol, Location>) {
+    /// Collect the explicit type parameters of `ty` in the order of their first occurrence.
+    fn collect_explicit_type_params_in_type(ty: TypeNodeId, out: &mut Vec<(Symbol, Location)>) {
         match ty.to_type() {
             Type::TypeAlias(name) if Self::is_explicit_type_param_name(name) => {
-                out.entry(name).or_insert_with(|| ty.to_loc());
+                if !out.iter().any(|(seen, _)| *seen == name) {
+                    out.push((name, ty.to_loc()));
+                }
             }
             Type::Array(elem) | Type::Ref(elem) | Type::Code(elem) | Type::Boxed(elem) => {
                 Self::collect_explicit_type_params_in_type(elem, out);
@@ -731,7 +734,9 @@ impl InferContext {
         types: &[TypeNodeId],
         f: impl FnOnce(&mut Self) -> T,
     ) -> T {
-        let mut collected = BTreeMap::<Symbol, Location>::new();
+        // Fresh type schemes are numbered in the order the parameters first occur in `types`.
+        // (A map keyed by `Symbol` would be walked in the order the names were interned.)
+        let mut collected = Vec::<(Symbol, Location)>::new();
         types
             .iter()
             .for_each(|ty| Self::collect_explicit_type_params_in_type(*ty, &mut collected));
